@@ -234,7 +234,7 @@ PROPS['C18'] = dict(
     level_text='Complete in the header domain (2^320 headers) for a receiver of fixed capacity: no panic/overflow/OOB on any path, Ok implies size <= max_size and n*cols*max_size*8 <= buffer and fields equal the header, Err leaves metadata unchanged; every truncation point of a valid stream is rejected.',
     level_note='Receiver capacity fixed at 32 bytes (the code is capacity-generic); round trip is bounded in shape (thorough tier); GLWE/LWE/GLWECompressed and the compound wrappers GGLWE, GGSW, GLWESwitchingKey, GLWEAutomorphismKey, GLWEPublicKey, GGLWECompressed are covered for truncation at one concrete shape each (the wrapper code is shape-generic: straight-line field reads around the inner read); tensor/LWE-switching keys delegate to these; the multi-key containers of poulpy-bin-fhe are not covered.',
     units=[
-        V('ser_gglwe_compressed'), V('ser_wrappers'),
+        V('ser_gglwe_compressed'), V('ser_wrappers'), V('ser_hal'),
         K('poulpy-hal', 'layouts::vec_znx::verif_kani', ['c18_vec_znx_read_header', 'c18_vec_znx_read_truncated'], cls='complete', timeout=1500,
           functions=['<VecZnx as ReaderFrom>::read_from']),
         K('poulpy-hal', 'layouts::scalar_znx::verif_kani', ['c18_scalar_znx_read_header', 'c18_scalar_znx_read_truncated'], cls='complete', timeout=900,
